@@ -7,6 +7,8 @@ import (
 	"errors"
 	"sync"
 
+	"github.com/ipfs/go-datastore"
+
 	zz "github.com/celestiaorg/go-header/internal/zzverif"
 )
 
@@ -19,6 +21,12 @@ type zzHandlerCall struct {
 
 var zzErrHandler = errors.New("zz: handler failure")
 
+// zzHandlerMiss: a handler error that wraps datastore.ErrNotFound.
+type zzHandlerMiss struct{}
+
+func (*zzHandlerMiss) Error() string { return "zz: handler could not find its own record" }
+func (*zzHandlerMiss) Unwrap() error { return datastore.ErrNotFound }
+
 // ZzC14 deletes a permitted range with 1-2 handlers registered; one handler call may fail or panic.
 func ZzC14() {
 	ctx := context.Background()
@@ -28,7 +36,9 @@ func ZzC14() {
 	K := sc.K
 	nh := 1 + zz.Choice("handlers", 2)
 	failCall := zz.Choice("fail.call", K*nh+1) - 1 // index of the failing handler call, -1: none
-	failKind := 1 + zz.Choice("fail.kind", 2)
+	// failure kinds: 1 plain error, 2 panic, 3 an error that wraps datastore.ErrNotFound (a handler that
+	// looked something up in its own datastore and hands the miss on)
+	failKind := 1 + zz.Choice("fail.kind", 2+zz.Param("NOTFOUNDKIND", 0))
 	var calls []zzHandlerCall
 	armed := true
 	for hi := 0; hi < nh; hi++ {
@@ -45,6 +55,8 @@ func ZzC14() {
 				return zzErrHandler
 			case 2:
 				panic("zz: handler panic")
+			case 3:
+				return &zzHandlerMiss{}
 			}
 			return nil
 		})
@@ -63,6 +75,15 @@ func ZzC14() {
 		if c.outcome != 0 {
 			failed, failedAt = true, c.height
 		}
+	}
+	if failed && failKind == 3 {
+		// known finding: deleteSequential / deleteParallel take any error that wraps datastore.ErrNotFound for
+		// "header not stored" - also one that comes out of a handler - count the height as missing and go on
+		if zz.Known("C14-handler-error-wrapping-notfound", true) {
+			zz.Reach("handler-miss-error")
+		}
+		zz.Assert(err != nil, "a handler error or panic is returned by DeleteRange")
+		return
 	}
 	// per height: which handlers completed with nil
 	okCount := func(h uint64, hi int) int {
